@@ -39,7 +39,8 @@ Definition the_table : table :=
    mkty [P "Blobs" true 10] 10 PNone false None;         (* 16 cat *)
    mkty [P "In" false 3] 14 PNone true None;             (* 17 basics.TextNode *)
    mkty [P "In" false 10] 14 PNone true None;            (* 18 basics.BinaryNode *)
-   mkty [P "In" false 11] 14 PNone true None ].          (* 19 basics.ImageNode *)
+   mkty [P "In" false 11] 14 PNone true None;            (* 19 basics.ImageNode *)
+   mkty [P "VALUE" false 1; P "Vals" true 1; P "Values" true 1; P "Values2" true 1] 1 PNone false None ].   (* 20 mix: prefix-sharing, mixed-case port names *)
 
 (* ---- rendering model values as the harness's observation trees ---- *)
 Definition jopt (o : option jval) : jval := match o with Some v => JArr [v] | None => JNull end.
